@@ -10,7 +10,7 @@
 (*    dr  model drift ("" or a note; never a verdict)                      *)
 (*    sk  1 when some clause of the record could not be decided            *)
 (***************************************************************************)
-EXTENDS C19_Arith, C19_PolyRing, Json, IOUtils
+EXTENDS C19_Entry, Json, IOUtils
 VARIABLES blk, off
 
 Recs == ndJsonDeserialize(IOEnv.TRACE_FILE)
@@ -32,7 +32,9 @@ Clauses(rec) ==
              ELSE << F(v, c.mon \o (IF c.one = "default" THEN "/default-unit" ELSE "")) >>)
             \* "x multiplied by itself n times" is about the caller's x: the call must leave it alone
             \o (IF o.xa # o.xb THEN << F("pow-argument-modified", c.mon) >> ELSE << >>)
-      [] rec.part = "euclid" -> One(JudgeEE(c, o.ee)) \o One(JudgeGcd(c, o.g)) \o One(JudgeLcm(c, o.l))
+      \* every entry point of the routine, same clauses (C19_Entry)
+      [] rec.part = "euclid" -> EuclidClauses(c, o)
+      [] rec.part = "euclidbig" -> EuclidBigClauses(c, o)
       [] rec.part = "gcdmany" -> One(JudgeGcdMany(c, o))
       [] rec.part = "fft" ->
             LET v == JudgeFFT(c, o) IN
@@ -49,11 +51,7 @@ Drift(rec) ==
     CASE rec.part = "poly" ->
             LET d == PolyDrift(c, o) IN
             IF d # "" THEN d ELSE IF NonNormal(o) THEN "non-normal-data" ELSE ""
-      [] rec.part = "euclid" ->
-            \* A-layer predictions of the exact triple and of the sign of the lcm
-            IF IntRes(o.ee, 3) /\ << o.ee.v[1].n, o.ee.v[2].n, o.ee.v[3].n >> # ExtEuclid(c.q, c.r)
-            THEN "impl-differs"
-            ELSE IF IntRes(o.l, 1) /\ o.l.v[1].n < 0 THEN "lcm-negative" ELSE ""
+      [] rec.part = "euclid" -> EuclidDrift(c, o)
       [] rec.part = "quot" ->
             IF c.d # 0 /\ o.b \notin {"Rational", "int"} THEN "node-kind-" \o o.b
             ELSE IF c.d # 0 /\ o.b = "Rational" /\ o.fk # "int" THEN "rational-fields-" \o o.fk ELSE ""
